@@ -138,12 +138,17 @@ def weave_signed_shift(w, sc):
     w.contract(sc["signed_shift.contract"], ret="r")
     w.body_first(sc["signed_shift.first"])
     # the name of the vector being built is taken from the code, not fixed in the sidecar
-    i = w.find(r"^\s*let mut \w+ = vec!\[\];$")
-    vec = re.match(r"^\s*let mut (\w+) = vec!\[\];$", w.lines[i]).group(1)
+    VEC_RX = r"^\s*let mut (\w+) = (vec!\[\]|Vec::new\(\)|Vec::with_capacity\(.*\));$"
+    i = w.find(VEC_RX)
+    vec = re.match(VEC_RX, w.lines[i]).group(1)
     i = w.find(r"^\s*let \w+ = cutoff \+ definitions\.len\(\);$")
     cut = re.match(r"^\s*let (\w+) = ", w.lines[i]).group(1)
     sub = lambda t: t.replace("$VEC", vec).replace("$CUT", cut)
-    w.ascribe(r"^\s*let mut \w+ = vec!\[\];$", "Vec<(&'a str, Rc<Term<'a>>, Rc<Term<'a>>)>")
+    w.ascribe(VEC_RX, "Vec<(&'a str, Rc<Term<'a>>, Rc<Term<'a>>)>")
+    # facts needed at the body's `?` exit: placed right after the loop, wherever the body is shifted
+    i_for = w.find(r"^\s*for .* in .* \{$")
+    j_for = w.block_end(i_for)
+    w.lines[j_for + 1 : j_for + 1] = sub(sc["signed_shift.let.tail.pre"]).rstrip("\n").split("\n")
     w.for_invariant(1, "it", sub(sc["signed_shift.let.loop"]))
     # first statement of the loop body
     i = w.find(r"^\s*" + vec + r"\.push\(\($")
@@ -152,7 +157,7 @@ def weave_signed_shift(w, sc):
     i_let = w.find(r"^        Let\(definitions, body\) => \{$")
     w.lines[i_let + 1 : i_let + 1] = sc["signed_shift.let.pre"].rstrip("\n").split("\n")
     w.log["annotations"].append({"fn": w.name, "kind": "proof-after", "anchor": "Let(definitions, body) => {"})
-    w.bind_tail(r"^            Some\(Term \{$", "shifted", sc["signed_shift.let.tail.post"], pre_text=sub(sc["signed_shift.let.tail.pre"]))
+    w.bind_tail(r"^            Some\(Term \{$", "shifted", sc["signed_shift.let.tail.post"])
     hole_arm_live(w, r"^        Unifier\(subterm, subterm_shift\) => \{$", sc["signed_shift.hole"], ["signed_shift", "unsigned_shift"])
 
 
@@ -190,7 +195,10 @@ def map_collect_to_loop(w, first_regex, iter_name, invariant, body_pre=None, ele
     E, PAT and BODY are copied verbatim."""
     i = w.find(first_regex, nth)
     ind = " " * (len(w.lines[i]) - len(w.lines[i].lstrip()))
-    recv = w.lines[i].strip()
+    mm = re.match(r"^(let \w+ = )?(\w+)$", w.lines[i].strip())
+    if not mm:
+        raise LostAnchor(f"{w._where(i)}: expected `[let v = ]E` before `.iter()`")
+    lead, recv = mm.group(1) or "", mm.group(2)
     if w.lines[i + 1].strip() != ".iter()":
         raise LostAnchor(f"{w._where(i+1)}: expected `.iter()`")
     m = re.match(r"^\s*\.map\(\|(.*)\| \{$", w.lines[i + 2])
@@ -204,7 +212,7 @@ def map_collect_to_loop(w, first_regex, iter_name, invariant, body_pre=None, ele
     if tail not in (".collect(),", ".collect();", ".collect()"):
         raise LostAnchor(f"{w._where(j+1)}: expected `.collect()`")
     body = w.lines[i + 3 : j]
-    new = [ind + "{", ind + f"    let mut out: {elem_ty} = Vec::new();", ind + f"    for {pat} in {iter_name}: {recv}.iter()"]
+    new = [ind + lead + "{", ind + f"    let mut out: {elem_ty} = Vec::new();", ind + f"    for {pat} in {iter_name}: {recv}.iter()"]
     new += invariant.rstrip("\n").split("\n")
     new += [ind + "    {"]
     if body_pre:
@@ -225,7 +233,7 @@ def weave_open(w, sc):
     idx = re.match(r"^\s*let (\w+) = ", w.lines[i]).group(1)
     i = w.find(r"^\s*let \w+ = shift_amount \+ definitions\.len\(\);$")
     shf = re.match(r"^\s*let (\w+) = ", w.lines[i]).group(1)
-    map_collect_to_loop(w, r"^\s*definitions$", "it", sc["open.let.loop"].replace("$IDX", idx).replace("$SHIFT", shf), body_pre=sc["open.let.body"])
+    map_collect_to_loop(w, r"^\s*(let \w+ = )?definitions$", "it", sc["open.let.loop"].replace("$IDX", idx).replace("$SHIFT", shf), body_pre=sc["open.let.body"])
     w.bind_tail(r"^            Term \{$", "opened", sc["open.let.tail.post"])
 
 
@@ -236,7 +244,7 @@ def weave_free_variables(w, sc):
     # hints are placed by structure (start / end of the loop body, end of the arm), not on statement text
     i_let = w.find(r"^        Variant::Let\(definitions, body\) => \{$")
     j_let = w.block_end(i_let)
-    i_for = w.find(r"^\s*for .* in definitions \{$", 1, i_let)
+    i_for = w.find(r"^\s*for .* in definitions(\.iter\(\))? \{$", 1, i_let)
     j_for = w.block_end(i_for)
     if not (i_let < i_for < j_for < j_let):
         raise LostAnchor(f"{w._where(i_let)}: Let arm of free_variables not in the expected shape")
@@ -604,6 +612,25 @@ def weave_reassoc(w, sc, key):
     i = w.find(r"^    let \w+ = match &term\.variant \{$")
     red = re.match(r"^    let (\w+) = ", w.lines[i]).group(1)
     w.after(r"^    let \w+ = match &term\.variant \{$", sc[key + ".bottom"].replace("$REDUCED", red))
+    # a `Term { .. }` literal nested directly inside another one (`Rc::new(Term { .. })`): bind it in place so
+    # that a proof block can mention its view (R7 variant; evaluation order unchanged: the block sits where the
+    # literal was)
+    k = 0
+    while True:
+        hits = [i for i in range(len(w.lines)) if re.match(r"^\s*Rc::new\(Term \{$", w.lines[i])]
+        if k >= len(hits):
+            break
+        i = hits[k]
+        j = w.block_end(i)
+        m2 = re.match(r"^(\s*)\}\)(,?)$", w.lines[j])
+        if not m2:
+            raise LostAnchor(f"{w._where(j)}: nested Term literal does not end in `}})`")
+        ind = m2.group(1)
+        before = w.lines[i : j + 1]
+        w.lines[i] = ind + "Rc::new({ let nested = Term {"
+        w.lines[j] = ind + "}; " + sc[key + ".left.post"].strip().replace("$LEFT", "nested") + " nested })" + m2.group(2)
+        w.log["rewrites"].append({"rule": "R7-bind-in-place", "site": w._where(i), "before": before[0] + " .. " + before[-1].strip(), "after": w.lines[i].strip() + " .. " + w.lines[j].strip(), "note": "nested struct literal bound to a local inside a block expression at the same place, so that a proof block can mention it"})
+        k += 1
     # the extended accumulator of the grouped-last-operand branches (absent in the pre-fix code)
     rx = r"^\s+let \w+ = Term \{$"
     for n in range(1, w.count(rx) + 1):
